@@ -9,12 +9,21 @@ CFG = {"quick": "MC_Validation_quick.cfg", "thorough": "MC_Validation_thorough.c
 
 def observe(tier):
     d = C.fresh_dir(os.path.join(C.BUILD, "validation"))
-    cfg = CFG[tier]
+    cfg = CFG["quick"]
     g = C.TlcGen("OdmlValidationGen.tla", cfg, "validation", workers=8)
     n, files = par.replay_stream(dedupe(g.chunks(200)), "harness.validation", os.path.join(d, "R"), shard=6000)
+    tlc = [{"cfg": cfg, "cmd": g.describe(), "states": g.stats["distinct"], "transitions": g.n_lines, "wall_s": round(g.wall, 1)}]
+    records = {"R": n}
+    if tier == "thorough":
+        # all documents two mutations away (above) + one in 40 (by content hash and seed) of those three mutations away
+        g3 = C.TlcGen("OdmlValidationGen.tla", CFG["thorough"], "validation3", workers=8)
+        n3, f3 = par.replay_stream(C.thin(dedupe(g3.chunks(200)), 40), "harness.validation", os.path.join(d, "R3"), shard=6000)
+        files += f3
+        records["R3 (1 in 40)"] = n3
+        tlc.append({"cfg": CFG["thorough"], "cmd": g3.describe(), "states": g3.stats["distinct"], "transitions": g3.n_lines, "wall_s": round(g3.wall, 1)})
     return {"judge": [("JudgeValidation.tla", "JudgeValidation.cfg", files)],
-            "tlc": [{"cfg": cfg, "cmd": g.describe(), "states": g.stats["distinct"], "transitions": g.n_lines, "wall_s": round(g.wall, 1)}],
-            "records": {"R": n},
+            "tlc": tlc,
+            "records": records,
             "explanation": "every document reachable by <= MaxMut mutations from a valid base document (cleared/unspecified types, names equal to ids, shared ids, "
                            "duplicate sibling names, dependencies on existing/missing Properties and on names of sub-Sections, dependency values matching the first/"
                            "a later/no value, text/int/empty targets, met and unmet cardinalities, values inconsistent with the dtype) validated from the document, "
